@@ -12,6 +12,7 @@
 EXTENDS GeomOps, Json, IOUtils
 Recs == ndJsonDeserialize(IOEnv.TRACEFILE)
 MODE == IOEnv.MODE
+ST == INSTANCE Storage
 
 PoolOK(pool) == \A i \in DOMAIN pool :
    LET e == pool[i] IN /\ e.p.pan = <<>> /\ e.p.val = e.v /\ e.p.flat = Deflate(e.k, e.v).flat
@@ -43,7 +44,9 @@ StepOK16(r, n) ==
   LET a == r.case.hist[n]  o == r.steps[n]  p == Prev(r, n) IN
   \* (a Clone that panics is recorded in err; an accessor that panics on a faithful clone panics on the original too and is
   \* C01's business: the two projections are compared as they are)
-  CASE a.op = "clone" -> o.err = "none" /\ o.o2 = o.o1 /\ o.o1 = p.o1
+  \* "shares no storage": right after Clone no slice of the clone occupies (with its capacity) an address range that a slice of
+  \* the original occupies (Storage!Shares on the recorded ranges; recorded when the case asks for it)
+  CASE a.op = "clone" -> o.err = "none" /\ o.o2 = o.o1 /\ o.o1 = p.o1 /\ ("sto" \in DOMAIN o => ST!Disjoint(o.sto.o1, o.sto.o2))
     [] a.op = "swap"  -> TRUE
     [] OTHER          -> Side(o, 3 - a.to) = Side(p, 3 - a.to)
 First16(r) == LET bad == {n \in DOMAIN r.steps : ~StepOK16(r, n)} IN
@@ -110,7 +113,9 @@ Verdict(r) ==
          LET n == First16(r) IN
          IF n = 0 THEN [ok |-> TRUE]
          ELSE [ok |-> FALSE, step |-> n,
-               sig |-> "clone|" \o r.case.k \o "|" \o LClass(r.case.l) \o "|" \o r.case.hist[n].op]
+               sig |-> "clone|" \o r.case.k \o "|" \o LClass(r.case.l) \o "|" \o r.case.hist[n].op
+                       \o (IF r.case.hist[n].op = "clone" /\ "sto" \in DOMAIN r.steps[n] /\ ST!Shares(r.steps[n].sto.o1, r.steps[n].sto.o2)
+                           THEN "|shares-storage" ELSE "")]
        [] MODE = "C01" ->
          LET n == First01(r) IN
          IF n = 0 THEN [ok |-> TRUE]
